@@ -412,6 +412,25 @@ def r4_gsd_partial(ctx, repo):
     okm = "itertools.product*partition_sets" in tt and "partitions[p][factor]forfactor,pinenumeraterow" in tt and "np.vstackmappings" in tt
     ctx.check3(True if okm else None, "R4", "doe._map_partitions_to_design", where(doe, mpd or mp), "each orthogonal-array row contributes the full product of its factors' partition sets",
                unknown_detail="row-to-design mapping not recognised", key="row-products")
+    # orthogonal-array augmentation: matrix i is combined with the matrices selected by row i of the latin square
+    oa = doe.functions.get("_make_orthogonal_arrays")
+    if oa is not None:
+        sel = [n_ for n_ in ast.walk(oa) if isinstance(n_, ast.Subscript) and "latin_square[" in text(n_.slice) and "A_matrices" in text(n_.value)]
+        rolls = [c for c in calls_in(oa) if (access_path(c.func) or "").endswith("roll")]
+        if sel:
+            ctx.holds("R4", "doe._make_orthogonal_arrays", where(doe, sel[0]), "the matrices combined with constant c are selected as whole matrices by the latin-square row: %s" % text(sel[0]), key="oa-selection")
+        elif rolls:
+            c = rolls[0]
+            has_axis = any(k.arg == "axis" for k in c.keywords) or len(c.args) >= 3
+            stacked = c.args and any(isinstance(s_, ast.Assign) and access_path(s_.targets[0]) == access_path(c.args[0]) and "np.array(A_matrices)" in text(s_.value) for s_ in stmts_of(oa))
+            if not has_axis and (stacked or "A_matrices" in text(c.args[0])):
+                ctx.violated("R4", "doe._make_orthogonal_arrays", where(doe, c),
+                             "%s rolls a stack of matrices without axis=0: numpy flattens the stack, so matrix *entries* are shifted instead of whole matrices; "
+                             "from the second augmentation step on the complementary designs overlap and no longer cover the full factorial" % text(c), key="oa-selection")
+            else:
+                ctx.assume("orthogonal-array selection uses np.roll with an axis: not decided")
+        else:
+            ctx.assume("orthogonal-array selection has an unrecognised shape: not decided (this clause is outside the claim)")
     g = repo.cls("GSDGenerator", "operators")
     fn = g.methods.get("generate")
     t = text(fn)
